@@ -297,16 +297,18 @@ containment("_filter:LDAPFilter.unpack", options=_FO,
 
 # MatchingRuleAssertion ::= SEQUENCE { matchingRule [1] OPTIONAL, type [2] OPTIONAL, matchValue [3], dnAttributes [4] BOOLEAN DEFAULT FALSE }
 # read by a skipping loop: each of [1] / [2] / [3] is a fold over the element stream of the content (last one wins, others skipped).
-# dnAttributes is not stated here: the reader's contract fixes a BOOLEAN's value for one content octet only (C07).
+# dnAttributes [4] BOOLEAN DEFAULT FALSE: absent = FALSE, present = the value of its content (FALSE only for the single octet 00).
 containment("_filter:FilterExtensibleMatch.unpack", options=_FO,
             ensures=[_PROGRESS, "id_class(%s) == 2" % _V, "id_number(%s) == 9" % _V, "reader._view == rest_of(%s)" % _V,
                      "(result.rule is None) == opt_none(%s, 1, True)" % _C, "implies(result.rule is not None, utf8(result.rule) == opt_val(%s, 1, empty()))" % _C,
                      "(result.attribute is None) == opt_none(%s, 2, True)" % _C, "implies(result.attribute is not None, utf8(result.attribute) == opt_val(%s, 2, empty()))" % _C,
-                     "result.value == opt_val(%s, 3, empty())" % _C],
+                     "result.value == opt_val(%s, 3, empty())" % _C,
+                     "result.dn_attributes == opt_bool(%s, 4, False)" % _C],
             loops={0: dict(snapshot={"v0": "filter_reader._view"},
                            invariant=["opt_none(filter_reader._view, 1, rule is None) == opt_none(v0, 1, True)", "opt_val(filter_reader._view, 1, or_empty(rule)) == opt_val(v0, 1, empty())",
                                       "opt_none(filter_reader._view, 2, attribute is None) == opt_none(v0, 2, True)", "opt_val(filter_reader._view, 2, or_empty(attribute)) == opt_val(v0, 2, empty())",
-                                      "opt_val(filter_reader._view, 3, value) == opt_val(v0, 3, empty())"],
+                                      "opt_val(filter_reader._view, 3, value) == opt_val(v0, 3, empty())",
+                                      "opt_bool(filter_reader._view, 4, dn_attributes) == opt_bool(v0, 4, False)"],
                            decreases="len(filter_reader._view)")},
             exit_hints=["v0 == %s" % _C])
 
